@@ -68,7 +68,8 @@ def files():
     for m in RPCS_ALPHA:
         fb.method(a, m, "Req", "Rsp", http=("get", "/v1/{name=a/*}:" + m.lower()))
     b = fb.service("Beta")
-    fb.method(b, "List", "Req", "Rsp", http=("get", "/v1/{name=b/*}"))
+    # no http rule: the RPC is still part of the surface of every client kind, rest included
+    fb.method(b, "List", "Req", "Rsp")
     # the same RPC name in a second service: names must be resolved per service
     fb.method(b, "GetThing", "Req", "Rsp", http=("get", "/v1/{name=b/*}:thing"))
     return [fb.f]
